@@ -74,8 +74,70 @@ fn deser_inputs() -> Vec<Vec<u8>> {
     v
 }
 
+// ---- stepping evaluator vs consensus evaluator on (program, env) given as CLVM bytes
+fn build_tree(a: &mut clvmr::Allocator, depth: usize, tag: &mut u8) -> clvmr::NodePtr {
+    if depth == 0 { *tag = tag.wrapping_add(1); let t = [b'a' + (*tag % 26), *tag]; return a.new_atom(&t).unwrap(); }
+    let l = build_tree(a, depth - 1, tag);
+    let r = build_tree(a, depth - 1, tag);
+    a.new_pair(l, r).unwrap()
+}
+fn comb(a: &mut clvmr::Allocator, n: usize, right: bool) -> clvmr::NodePtr {
+    let mut t = a.new_atom(b"end").unwrap();
+    for i in 0..n {
+        let leaf = a.new_atom(&[b'A' + (i % 26) as u8, i as u8]).unwrap();
+        t = if right { a.new_pair(leaf, t).unwrap() } else { a.new_pair(t, leaf).unwrap() };
+    }
+    t
+}
+fn step_vs_consensus(prog: &[u8], envsel: u8) -> Option<Value> {
+    use chialisp::classic::clvm_tools::stages::stage_0::{DefaultProgramRunner, TRunProgram};
+    use chialisp::compiler::clvm::{convert_from_clvm_rs, convert_to_clvm_rs, run};
+    use chialisp::compiler::prims::prim_map;
+    use chialisp::compiler::srcloc::Srcloc;
+    use std::rc::Rc;
+    let prog = prog.to_vec();
+    let res = catch_unwind(move || {
+        let mut a = clvmr::Allocator::new();
+        let p = match clvmr::serde::node_from_bytes(&mut a, &prog) { Ok(p) => p, Err(_) => return None };
+        let mut tag = 0u8;
+        let env = match envsel { 0 => build_tree(&mut a, 4, &mut tag), 1 => comb(&mut a, 20, true), 2 => comb(&mut a, 20, false), _ => a.nil() };
+        let runner = Rc::new(DefaultProgramRunner::new());
+        let cons = runner.run_program(&mut a, p, env, None).ok().and_then(|r| clvmr::serde::node_to_bytes(&a, r.1).ok());
+        let loc = Srcloc::start("*replay*");
+        let sp = convert_from_clvm_rs(&mut a, loc.clone(), p).ok()?;
+        let se = convert_from_clvm_rs(&mut a, loc, env).ok()?;
+        let stepped = run(&mut a, runner, prim_map(), sp, se, None, Some(100000)).ok()
+            .and_then(|v| convert_to_clvm_rs(&mut a, v).ok()).and_then(|n| clvmr::serde::node_to_bytes(&a, n).ok());
+        Some((cons, stepped))
+    });
+    match res {
+        Ok(Some((c, s))) if c != s => Some(hit(json!({"program_bytes": prog_hex(&c, &s), "env": envsel}), format!("consensus: {:?}", c), format!("stepper: {:?}", s), "compiler::clvm::run vs clvmr run_program on the same program and env")),
+        Err(_) => Some(hit(json!({"env": envsel}), "no panic".into(), "panic".into(), "stepper panicked")),
+        _ => None,
+    }
+}
+fn prog_hex(_c: &Option<Vec<u8>>, _s: &Option<Vec<u8>>) -> String { String::new() }
+fn stepper_programs() -> Vec<Vec<u8>> {
+    let mut v: Vec<Vec<u8>> = vec![];
+    // path atoms: one byte, two bytes (incl. non-minimal and sign-extended), three bytes
+    for b in 0u16..=0xff { v.push(if b == 0 { vec![0x00] } else if b < 0x80 { vec![b as u8] } else { vec![0x81, b as u8] }); }
+    for hi in [0x00u8, 0x01, 0x7f, 0x80, 0xff] { for lo in [0x00u8, 0x01, 0x02, 0x7f, 0x80, 0xfe, 0xff] { v.push(vec![0x82, hi, lo]); } }
+    v.push(vec![0x83, 0x00, 0x00, 0x00]); v.push(vec![0x83, 0x00, 0xff, 0xff]); v.push(vec![0x83, 0xff, 0xff, 0xff]);
+    // a few operator programs: (q . 1), (f 1), (r 1), (c 2 3), (i 2 5 7), (a 2 3), (+ 5 11)
+    for hex in ["ff0101", "ff05ff0180", "ff06ff0180", "ff04ff02ff0380", "ff03ff02ff05ff0780", "ff02ff02ff0380", "ff10ff05ff0b80", "ff8200ffff0180", "ff01", "ff80ff0180"] {
+        v.push((0..hex.len() / 2).map(|i| u8::from_str_radix(&hex[2 * i..2 * i + 2], 16).unwrap()).collect());
+    }
+    v
+}
+
 pub fn search(name: &str, _seed: u64) -> Value {
     match name {
+        "choose_path" | "flatten_signed_int" | "truthy" | "atom_value" | "run_step" | "combine" | "eval_args" | "generate_argument_refs" => {
+            for p in stepper_programs() { for e in 0..4u8 {
+                if let Some(mut v) = step_vs_consensus(&p, e) { v["input"] = json!({"program": p, "env": e}); return v; }
+            } }
+            nf("stepper agrees with clvmr run_program on the enumerated programs x 4 environments")
+        }
         "atom_from_stream" | "sexp_from_stream" | "int_from_bytes" | "get_u32" | "read" => {
             for d in deser_inputs() { if let Some(v) = chk_deser(&d) { return v; } }
             nf("sexp_from_stream agrees with clvmr node_from_bytes on the enumerated byte strings")
@@ -92,6 +154,8 @@ pub fn search(name: &str, _seed: u64) -> Value {
 
 pub fn run_input(name: &str, input: &Value) -> Value {
     match name {
+        "choose_path" | "flatten_signed_int" | "truthy" | "atom_value" | "run_step" | "combine" | "eval_args" | "generate_argument_refs" =>
+            step_vs_consensus(&bytes(&input["program"]), input["env"].as_u64().unwrap_or(0) as u8).unwrap_or_else(|| nf("input does not violate the contract on this tree")),
         "atom_from_stream" | "sexp_from_stream" | "int_from_bytes" | "get_u32" | "read" => chk_deser(&bytes(&input["bytes"])).unwrap_or_else(|| nf("input does not violate the contract on this tree")),
         "compose_paths" => chk_compose_paths(&big(&input["p"]), &big(&input["q"])).unwrap_or_else(|| nf("input does not violate the contract on this tree")),
         _ => nf("no replayer for this obligation"),
